@@ -1,3 +1,257 @@
-import ElfioVerif.Model.Writer
+/-
+C03 — a file built through the API decodes, per the ELF specification, to what was put in.
+-/
+import ElfioVerif.Lemmas.Save
+import ElfioVerif.Props.C02
+import ElfioVerif.Props.C08
 namespace ElfioVerif.C03
+open Gen
+
+/-! ### 1. records: what the writer emits is the specification encoding, field by field -/
+
+/-- the bytes of field `name` of record `r` are the specification encoding (`encodeInt` in the
+    declared byte order, at the gABI offset and width of table `l`) of `v` -/
+def IsSpecField (l : Spec.Layout) (enc : Enc) (r : Bytes) (name : String) (v : Nat) : Prop :=
+  slice r (Spec.field l name).1 (Spec.field l name).2 = encodeInt enc (Spec.field l name).2 v
+
+theorem isSpecField_idx (l : Spec.Layout) (enc : Enc) (fs : List (Nat × Nat)) (name : String) (k : Nat)
+    (hk : k < fs.length) (hf : Spec.field l name = (sumWidths (fs.take k), fs[k].1)) :
+    IsSpecField l enc (encodeFields enc fs) name fs[k].2 := by
+  unfold IsSpecField
+  rw [hf]
+  have h := slice_encodeFields enc (fs.take k) fs[k].1 fs[k].2 (fs.drop (k + 1))
+  have e : fs.take k ++ (fs[k].1, fs[k].2) :: fs.drop (k + 1) = fs := by
+    have : (fs[k].1, fs[k].2) = fs[k] := rfl
+    rw [this, List.getElem_cons_drop, List.take_append_drop]
+  rw [e] at h
+  exact h
+
+/-- reading a spec-encoded field back with the specification decoder gives the value (mod width) -/
+theorem get_of_isSpecField {l : Spec.Layout} {enc : Enc} {r : Bytes} {name : String} {v : Nat}
+    (h : IsSpecField l enc r name v) :
+    Spec.get l enc r 0 name = v % 2 ^ (8 * (Spec.field l name).2) := by
+  have hf : Spec.field l name = ((Spec.field l name).1, (Spec.field l name).2) := rfl
+  unfold IsSpecField at h
+  rw [C02.get_of_field hf, Nat.zero_add, h, decode_encodeInt]
+
+/-- a record found at `base` of an image reads the same as the record alone -/
+theorem get_at_base {l : Spec.Layout} {enc : Enc} {img r : Bytes} {base n : Nat} {name : String}
+    (hs : slice img base n = r) (hf : (Spec.field l name).1 + (Spec.field l name).2 ≤ n) :
+    Spec.get l enc img base name = Spec.get l enc r 0 name := by
+  have hf' : Spec.field l name = ((Spec.field l name).1, (Spec.field l name).2) := rfl
+  rw [C02.get_of_field hf', C02.get_of_field hf', ← hs, Nat.zero_add, slice_slice hf]
+
+theorem wrField1 (e x) : wrField e 1 x = encodeInt e 1 x := wrField_eq e 1 x (by decide)
+theorem wrField2 (e x) : wrField e 2 x = encodeInt e 2 x := wrField_eq e 2 x (by decide)
+theorem wrField4 (e x) : wrField e 4 x = encodeInt e 4 x := wrField_eq e 4 x (by decide)
+theorem wrField8 (e x) : wrField e 8 x = encodeInt e 8 x := wrField_eq e 8 x (by decide)
+
+/-- the section header record as (width, value) pairs in gABI order -/
+def shdrFields (c : Cls) (b : SecBuf) : List (Nat × Nat) :=
+  match c with
+  | .c32 => [(4, b.nameOff.toNat), (4, b.stype.toNat), (4, b.flags.toNat), (4, b.addr.toNat),
+      (4, b.offset.toNat), (4, b.size.toNat), (4, b.link.toNat), (4, b.info.toNat),
+      (4, b.addrAlign.toNat), (4, b.entSize.toNat)]
+  | .c64 => [(4, b.nameOff.toNat), (4, b.stype.toNat), (8, b.flags.toNat), (8, b.addr.toNat),
+      (8, b.offset.toNat), (8, b.size.toNat), (4, b.link.toNat), (4, b.info.toNat),
+      (8, b.addrAlign.toNat), (8, b.entSize.toNat)]
+
+def phdrFields (c : Cls) (g : Seg) : List (Nat × Nat) :=
+  match c with
+  | .c32 => [(4, g.stype.toNat), (4, g.offset.toNat), (4, g.vaddr.toNat), (4, g.paddr.toNat),
+      (4, g.filesz.toNat), (4, g.memsz.toNat), (4, g.flags.toNat), (4, g.align.toNat)]
+  | .c64 => [(4, g.stype.toNat), (4, g.flags.toNat), (8, g.offset.toNat), (8, g.vaddr.toNat),
+      (8, g.paddr.toNat), (8, g.filesz.toNat), (8, g.memsz.toNat), (8, g.align.toNat)]
+
+theorem encodeShdr_eq_fields (c : Cls) (enc : Enc) (b : SecBuf) :
+    encodeShdr c enc b = encodeFields enc (shdrFields c b) := by
+  cases c <;>
+    simp only [encodeShdr, shdrFields, encodeFields, wrField4, wrField8, List.append_assoc, List.append_nil]
+
+theorem encodePhdr_eq_fields (c : Cls) (enc : Enc) (g : Seg) :
+    encodePhdr c enc g = encodeFields enc (phdrFields c g) := by
+  cases c <;>
+    simp only [encodePhdr, phdrFields, encodeFields, wrField4, wrField8, List.append_assoc, List.append_nil]
+
+theorem encodeShdr_length (c : Cls) (enc : Enc) (b : SecBuf) : (encodeShdr c enc b).length = shdrSize c := by
+  rw [encodeShdr_eq_fields, encodeFields_length]; cases c <;> rfl
+
+theorem encodePhdr_length (c : Cls) (enc : Enc) (g : Seg) : (encodePhdr c enc g).length = phdrSize c := by
+  rw [encodePhdr_eq_fields, encodeFields_length]; cases c <;> rfl
+
+/-- **the section header record is the specification encoding of the section's fields**: every
+    field sits at the gABI offset with the gABI width, encoded (`encodeInt`) in the byte order `enc`
+    — the order the object was created with and that `e_ident[EI_DATA]` declares (`create_inv`). -/
+theorem encodeShdr_spec_bytes (c : Cls) (enc : Enc) (b : SecBuf) :
+    IsSpecField (Spec.shdrL c) enc (encodeShdr c enc b) "sh_name" b.nameOff.toNat ∧
+    IsSpecField (Spec.shdrL c) enc (encodeShdr c enc b) "sh_type" b.stype.toNat ∧
+    IsSpecField (Spec.shdrL c) enc (encodeShdr c enc b) "sh_flags" b.flags.toNat ∧
+    IsSpecField (Spec.shdrL c) enc (encodeShdr c enc b) "sh_addr" b.addr.toNat ∧
+    IsSpecField (Spec.shdrL c) enc (encodeShdr c enc b) "sh_offset" b.offset.toNat ∧
+    IsSpecField (Spec.shdrL c) enc (encodeShdr c enc b) "sh_size" b.size.toNat ∧
+    IsSpecField (Spec.shdrL c) enc (encodeShdr c enc b) "sh_link" b.link.toNat ∧
+    IsSpecField (Spec.shdrL c) enc (encodeShdr c enc b) "sh_info" b.info.toNat ∧
+    IsSpecField (Spec.shdrL c) enc (encodeShdr c enc b) "sh_addralign" b.addrAlign.toNat ∧
+    IsSpecField (Spec.shdrL c) enc (encodeShdr c enc b) "sh_entsize" b.entSize.toNat := by
+  rw [encodeShdr_eq_fields]
+  cases c
+  · exact ⟨isSpecField_idx Spec.shdr32 enc (shdrFields .c32 b) "sh_name" 0 (by simp [shdrFields]) rfl,
+      isSpecField_idx Spec.shdr32 enc (shdrFields .c32 b) "sh_type" 1 (by simp [shdrFields]) rfl,
+      isSpecField_idx Spec.shdr32 enc (shdrFields .c32 b) "sh_flags" 2 (by simp [shdrFields]) rfl,
+      isSpecField_idx Spec.shdr32 enc (shdrFields .c32 b) "sh_addr" 3 (by simp [shdrFields]) rfl,
+      isSpecField_idx Spec.shdr32 enc (shdrFields .c32 b) "sh_offset" 4 (by simp [shdrFields]) rfl,
+      isSpecField_idx Spec.shdr32 enc (shdrFields .c32 b) "sh_size" 5 (by simp [shdrFields]) rfl,
+      isSpecField_idx Spec.shdr32 enc (shdrFields .c32 b) "sh_link" 6 (by simp [shdrFields]) rfl,
+      isSpecField_idx Spec.shdr32 enc (shdrFields .c32 b) "sh_info" 7 (by simp [shdrFields]) rfl,
+      isSpecField_idx Spec.shdr32 enc (shdrFields .c32 b) "sh_addralign" 8 (by simp [shdrFields]) rfl,
+      isSpecField_idx Spec.shdr32 enc (shdrFields .c32 b) "sh_entsize" 9 (by simp [shdrFields]) rfl⟩
+  · exact ⟨isSpecField_idx Spec.shdr64 enc (shdrFields .c64 b) "sh_name" 0 (by simp [shdrFields]) rfl,
+      isSpecField_idx Spec.shdr64 enc (shdrFields .c64 b) "sh_type" 1 (by simp [shdrFields]) rfl,
+      isSpecField_idx Spec.shdr64 enc (shdrFields .c64 b) "sh_flags" 2 (by simp [shdrFields]) rfl,
+      isSpecField_idx Spec.shdr64 enc (shdrFields .c64 b) "sh_addr" 3 (by simp [shdrFields]) rfl,
+      isSpecField_idx Spec.shdr64 enc (shdrFields .c64 b) "sh_offset" 4 (by simp [shdrFields]) rfl,
+      isSpecField_idx Spec.shdr64 enc (shdrFields .c64 b) "sh_size" 5 (by simp [shdrFields]) rfl,
+      isSpecField_idx Spec.shdr64 enc (shdrFields .c64 b) "sh_link" 6 (by simp [shdrFields]) rfl,
+      isSpecField_idx Spec.shdr64 enc (shdrFields .c64 b) "sh_info" 7 (by simp [shdrFields]) rfl,
+      isSpecField_idx Spec.shdr64 enc (shdrFields .c64 b) "sh_addralign" 8 (by simp [shdrFields]) rfl,
+      isSpecField_idx Spec.shdr64 enc (shdrFields .c64 b) "sh_entsize" 9 (by simp [shdrFields]) rfl⟩
+
+/-- **the program header record is the specification encoding of the segment's fields** -/
+theorem encodePhdr_spec_bytes (c : Cls) (enc : Enc) (g : Seg) :
+    IsSpecField (Spec.phdrL c) enc (encodePhdr c enc g) "p_type" g.stype.toNat ∧
+    IsSpecField (Spec.phdrL c) enc (encodePhdr c enc g) "p_flags" g.flags.toNat ∧
+    IsSpecField (Spec.phdrL c) enc (encodePhdr c enc g) "p_offset" g.offset.toNat ∧
+    IsSpecField (Spec.phdrL c) enc (encodePhdr c enc g) "p_vaddr" g.vaddr.toNat ∧
+    IsSpecField (Spec.phdrL c) enc (encodePhdr c enc g) "p_paddr" g.paddr.toNat ∧
+    IsSpecField (Spec.phdrL c) enc (encodePhdr c enc g) "p_filesz" g.filesz.toNat ∧
+    IsSpecField (Spec.phdrL c) enc (encodePhdr c enc g) "p_memsz" g.memsz.toNat ∧
+    IsSpecField (Spec.phdrL c) enc (encodePhdr c enc g) "p_align" g.align.toNat := by
+  rw [encodePhdr_eq_fields]
+  cases c
+  · exact ⟨isSpecField_idx Spec.phdr32 enc (phdrFields .c32 g) "p_type" 0 (by simp [phdrFields]) rfl,
+      isSpecField_idx Spec.phdr32 enc (phdrFields .c32 g) "p_flags" 6 (by simp [phdrFields]) rfl,
+      isSpecField_idx Spec.phdr32 enc (phdrFields .c32 g) "p_offset" 1 (by simp [phdrFields]) rfl,
+      isSpecField_idx Spec.phdr32 enc (phdrFields .c32 g) "p_vaddr" 2 (by simp [phdrFields]) rfl,
+      isSpecField_idx Spec.phdr32 enc (phdrFields .c32 g) "p_paddr" 3 (by simp [phdrFields]) rfl,
+      isSpecField_idx Spec.phdr32 enc (phdrFields .c32 g) "p_filesz" 4 (by simp [phdrFields]) rfl,
+      isSpecField_idx Spec.phdr32 enc (phdrFields .c32 g) "p_memsz" 5 (by simp [phdrFields]) rfl,
+      isSpecField_idx Spec.phdr32 enc (phdrFields .c32 g) "p_align" 7 (by simp [phdrFields]) rfl⟩
+  · exact ⟨isSpecField_idx Spec.phdr64 enc (phdrFields .c64 g) "p_type" 0 (by simp [phdrFields]) rfl,
+      isSpecField_idx Spec.phdr64 enc (phdrFields .c64 g) "p_flags" 1 (by simp [phdrFields]) rfl,
+      isSpecField_idx Spec.phdr64 enc (phdrFields .c64 g) "p_offset" 2 (by simp [phdrFields]) rfl,
+      isSpecField_idx Spec.phdr64 enc (phdrFields .c64 g) "p_vaddr" 3 (by simp [phdrFields]) rfl,
+      isSpecField_idx Spec.phdr64 enc (phdrFields .c64 g) "p_paddr" 4 (by simp [phdrFields]) rfl,
+      isSpecField_idx Spec.phdr64 enc (phdrFields .c64 g) "p_filesz" 5 (by simp [phdrFields]) rfl,
+      isSpecField_idx Spec.phdr64 enc (phdrFields .c64 g) "p_memsz" 6 (by simp [phdrFields]) rfl,
+      isSpecField_idx Spec.phdr64 enc (phdrFields .c64 g) "p_align" 7 (by simp [phdrFields]) rfl⟩
+
+/-- the values fit the class's field widths.  ELF64: always.  ELF32: the six address-sized
+    fields are below 2^32 — which every setter guarantees by truncating (`truncA`, `setSize`). -/
+structure FieldsFit (c : Cls) (b : SecBuf) : Prop where
+  flags : c = .c32 → b.flags.toNat < 4294967296
+  addr : c = .c32 → b.addr.toNat < 4294967296
+  offset : c = .c32 → b.offset.toNat < 4294967296
+  size : c = .c32 → b.size.toNat < 4294967296
+  addrAlign : c = .c32 → b.addrAlign.toNat < 4294967296
+  entSize : c = .c32 → b.entSize.toNat < 4294967296
+
+structure SegFit (c : Cls) (g : Seg) : Prop where
+  offset : c = .c32 → g.offset.toNat < 4294967296
+  vaddr : c = .c32 → g.vaddr.toNat < 4294967296
+  paddr : c = .c32 → g.paddr.toNat < 4294967296
+  filesz : c = .c32 → g.filesz.toNat < 4294967296
+  memsz : c = .c32 → g.memsz.toNat < 4294967296
+  align : c = .c32 → g.align.toNat < 4294967296
+
+theorem fieldsFit_c64 (b : SecBuf) : FieldsFit .c64 b := by constructor <;> intro h <;> cases h
+theorem segFit_c64 (g : Seg) : SegFit .c64 g := by constructor <;> intro h <;> cases h
+
+theorem truncA_fit (c : Cls) (v : BitVec 64) : c = .c32 → (truncA c v).toNat < 4294967296 := by
+  intro h; subst h
+  simp only [truncA, BitVec.toNat_setWidth, Nat.reducePow]
+  omega
+
+private theorem get32 {l : Spec.Layout} {enc : Enc} {r : Bytes} {name : String} {x : BitVec 32}
+    (h : IsSpecField l enc r name x.toNat) (hw : (Spec.field l name).2 = 4) :
+    Spec.get l enc r 0 name = x.toNat := by
+  rw [get_of_isSpecField h, hw]; have := x.isLt; simp only [Nat.reducePow, Nat.reduceMul] at *; omega
+
+private theorem get64 {l : Spec.Layout} {enc : Enc} {r : Bytes} {name : String} {x : BitVec 64}
+    (h : IsSpecField l enc r name x.toNat) (hw : (Spec.field l name).2 = 8) :
+    Spec.get l enc r 0 name = x.toNat := by
+  rw [get_of_isSpecField h, hw]; have := x.isLt; simp only [Nat.reducePow, Nat.reduceMul] at *; omega
+
+private theorem get64' {l : Spec.Layout} {enc : Enc} {r : Bytes} {name : String} {x : BitVec 64}
+    (h : IsSpecField l enc r name x.toNat) (hw : (Spec.field l name).2 = 4) (hx : x.toNat < 4294967296) :
+    Spec.get l enc r 0 name = x.toNat := by
+  rw [get_of_isSpecField h, hw]; simp only [Nat.reducePow, Nat.reduceMul] at *; omega
+
+/-- **encodeShdr_eq_spec** : reading the emitted section header record with the *specification*
+    decoder (gABI offsets/widths of Spec/Records.lean, byte order `enc`) returns exactly the
+    section's fields. -/
+theorem encodeShdr_eq_spec (c : Cls) (enc : Enc) (b : SecBuf) (hf : FieldsFit c b) :
+    let r := encodeShdr c enc b; let l := Spec.shdrL c
+    Spec.get l enc r 0 "sh_name" = b.nameOff.toNat ∧ Spec.get l enc r 0 "sh_type" = b.stype.toNat ∧
+    Spec.get l enc r 0 "sh_flags" = b.flags.toNat ∧ Spec.get l enc r 0 "sh_addr" = b.addr.toNat ∧
+    Spec.get l enc r 0 "sh_offset" = b.offset.toNat ∧ Spec.get l enc r 0 "sh_size" = b.size.toNat ∧
+    Spec.get l enc r 0 "sh_link" = b.link.toNat ∧ Spec.get l enc r 0 "sh_info" = b.info.toNat ∧
+    Spec.get l enc r 0 "sh_addralign" = b.addrAlign.toNat ∧ Spec.get l enc r 0 "sh_entsize" = b.entSize.toNat := by
+  obtain ⟨h0, h1, h2, h3, h4, h5, h6, h7, h8, h9⟩ := encodeShdr_spec_bytes c enc b
+  cases c
+  · exact ⟨get32 h0 rfl, get32 h1 rfl, get64' h2 rfl (hf.flags rfl), get64' h3 rfl (hf.addr rfl),
+      get64' h4 rfl (hf.offset rfl), get64' h5 rfl (hf.size rfl), get32 h6 rfl, get32 h7 rfl,
+      get64' h8 rfl (hf.addrAlign rfl), get64' h9 rfl (hf.entSize rfl)⟩
+  · exact ⟨get32 h0 rfl, get32 h1 rfl, get64 h2 rfl, get64 h3 rfl, get64 h4 rfl, get64 h5 rfl,
+      get32 h6 rfl, get32 h7 rfl, get64 h8 rfl, get64 h9 rfl⟩
+
+/-- **encodePhdr_eq_spec** -/
+theorem encodePhdr_eq_spec (c : Cls) (enc : Enc) (g : Seg) (hf : SegFit c g) :
+    let r := encodePhdr c enc g; let l := Spec.phdrL c
+    Spec.get l enc r 0 "p_type" = g.stype.toNat ∧ Spec.get l enc r 0 "p_flags" = g.flags.toNat ∧
+    Spec.get l enc r 0 "p_offset" = g.offset.toNat ∧ Spec.get l enc r 0 "p_vaddr" = g.vaddr.toNat ∧
+    Spec.get l enc r 0 "p_paddr" = g.paddr.toNat ∧ Spec.get l enc r 0 "p_filesz" = g.filesz.toNat ∧
+    Spec.get l enc r 0 "p_memsz" = g.memsz.toNat ∧ Spec.get l enc r 0 "p_align" = g.align.toNat := by
+  obtain ⟨h0, h1, h2, h3, h4, h5, h6, h7⟩ := encodePhdr_spec_bytes c enc g
+  cases c
+  · exact ⟨get32 h0 rfl, get32 h1 rfl, get64' h2 rfl (hf.offset rfl), get64' h3 rfl (hf.vaddr rfl),
+      get64' h4 rfl (hf.paddr rfl), get64' h5 rfl (hf.filesz rfl), get64' h6 rfl (hf.memsz rfl),
+      get64' h7 rfl (hf.align rfl)⟩
+  · exact ⟨get32 h0 rfl, get32 h1 rfl, get64 h2 rfl, get64 h3 rfl, get64 h4 rfl, get64 h5 rfl,
+      get64 h6 rfl, get64 h7 rfl⟩
+
+/-- **decode ∘ encode = id** on the ten header fields (the model's decoder is the specification's:
+    `C02.shdr_fields_eq_spec`) -/
+theorem decodeShdr_encodeShdr (c : Cls) (enc : Enc) (b b0 : SecBuf) (hf : FieldsFit c b) :
+    let s := decodeShdr c enc (encodeShdr c enc b) b0
+    s.nameOff = b.nameOff ∧ s.stype = b.stype ∧ s.flags = b.flags ∧ s.addr = b.addr ∧
+    s.offset = b.offset ∧ s.size = b.size ∧ s.link = b.link ∧ s.info = b.info ∧
+    s.addrAlign = b.addrAlign ∧ s.entSize = b.entSize := by
+  obtain ⟨d0, d1, d2, d3, d4, d5, d6, d7, d8, d9⟩ :=
+    C02.shdr_fields_eq_spec c enc (encodeShdr c enc b) b0 (by rw [encodeShdr_length]; exact Nat.le_refl _)
+  obtain ⟨h0, h1, h2, h3, h4, h5, h6, h7, h8, h9⟩ := encodeShdr_eq_spec c enc b hf
+  exact ⟨BitVec.eq_of_toNat_eq (d0.trans h0), BitVec.eq_of_toNat_eq (d1.trans h1),
+    BitVec.eq_of_toNat_eq (d2.trans h2), BitVec.eq_of_toNat_eq (d3.trans h3),
+    BitVec.eq_of_toNat_eq (d4.trans h4), BitVec.eq_of_toNat_eq (d5.trans h5),
+    BitVec.eq_of_toNat_eq (d6.trans h6), BitVec.eq_of_toNat_eq (d7.trans h7),
+    BitVec.eq_of_toNat_eq (d8.trans h8), BitVec.eq_of_toNat_eq (d9.trans h9)⟩
+
+theorem decodePhdr_encodePhdr (c : Cls) (enc : Enc) (g g0 : Seg) (hf : SegFit c g) :
+    let s := decodePhdr c enc (encodePhdr c enc g) g0
+    s.stype = g.stype ∧ s.flags = g.flags ∧ s.offset = g.offset ∧ s.vaddr = g.vaddr ∧
+    s.paddr = g.paddr ∧ s.filesz = g.filesz ∧ s.memsz = g.memsz ∧ s.align = g.align := by
+  obtain ⟨d0, d1, d2, d3, d4, d5, d6, d7⟩ :=
+    C02.phdr_fields_eq_spec c enc (encodePhdr c enc g) g0 (by rw [encodePhdr_length]; exact Nat.le_refl _)
+  obtain ⟨h0, h1, h2, h3, h4, h5, h6, h7⟩ := encodePhdr_eq_spec c enc g hf
+  exact ⟨BitVec.eq_of_toNat_eq (d0.trans h0), BitVec.eq_of_toNat_eq (d1.trans h1),
+    BitVec.eq_of_toNat_eq (d2.trans h2), BitVec.eq_of_toNat_eq (d3.trans h3),
+    BitVec.eq_of_toNat_eq (d4.trans h4), BitVec.eq_of_toNat_eq (d5.trans h5),
+    BitVec.eq_of_toNat_eq (d6.trans h6), BitVec.eq_of_toNat_eq (d7.trans h7)⟩
+
+/-- non-vacuity: a concrete ELF32 section meets `FieldsFit`, and its big-endian record starts with
+    the name offset in big-endian order -/
+example : FieldsFit .c32 { SecBuf.fresh .c32 1 with nameOff := 0x0102, flags := 6, addr := 0x8000, size := 12 } := by
+  constructor <;> intro _ <;> decide
+example : (encodeShdr .c32 .msb { SecBuf.fresh .c32 1 with nameOff := 0x0102 }).take 4 = [0, 0, 1, 2] := by decide
+example : (encodeShdr .c32 .lsb { SecBuf.fresh .c32 1 with nameOff := 0x0102 }).take 4 = [2, 1, 0, 0] := by decide
+
 end ElfioVerif.C03
